@@ -166,6 +166,20 @@ def distinct_names(phi, pool=None):
         return (op,) + tuple(go(c, m) for c in f[1:])
     return go(phi, {})
 
+def normalise(phi):
+    """a closed formula with its quantifiers renamed by relative nesting depth (x, xx, ...): equal for alpha-equal occurrences
+    of one closed sub-formula that sit at different absolute depths of a preprocessed tree"""
+    def go(f, m, d):
+        op = f[0]
+        if op == 'var': return ('var', m.get(f[1], f[1]))
+        if op in ('true', 'false', 'prop', 'wild'): return f
+        if op == 'jump': return ('jump', m.get(f[1], f[1]), go(f[2], m, d))
+        if op in QUANT:
+            nm = 'x' * (d + 1)
+            return (op, nm, f[2], go(f[3], {**m, f[1]: nm}, d + 1))
+        return (op,) + tuple(go(c, m, d) for c in f[1:])
+    return go(phi, {}, 0)
+
 def count_quant(phi):
     op = phi[0]
     if op in ('true', 'false', 'prop', 'var', 'wild'): return 0
